@@ -196,6 +196,9 @@ pub struct Conversation {
     pub sched: Schedule,
     pub fault: Fault,
     pub lockstep: bool,
+    /// shim in auto mode (no scripted actions); prepares hand out these (id, nparams), None = reject
+    #[serde(default)]
+    pub auto_ids: Option<Vec<Option<(u32, usize)>>>,
 }
 
 impl Conversation {
@@ -210,6 +213,7 @@ impl Conversation {
             sched: Schedule::all_at_once(),
             fault: Fault::None,
             lockstep: false,
+            auto_ids: None,
         }
     }
 }
@@ -343,6 +347,8 @@ pub fn run_with(c: &Conversation, tls: Option<std::sync::Arc<rustls::ServerConfi
         reject_auth: c.reject_auth,
         tls,
         convert_params,
+        auto: c.auto_ids.is_some(),
+        auto_ids: c.auto_ids.clone().unwrap_or_default().into_iter().collect(),
         ..Default::default()
     }));
     let shim = Shim::new(st.clone(), Some(tr.0.clone()));
